@@ -8,7 +8,7 @@ GROUPS_T = ["validators", "cond", "before", "on", "after"]
 
 def rand_def(rng, *, nstates=None, ntrans=None, provs=("sm",), dense=0.5, coro=0.0, styles=True,
              guards=True, validators=True, finals=True, name="M", yields=0, guard_p=0.5,
-             validator_p=0.15, events=None):
+             validator_p=0.15, events=None, evcb_p=0.0):
     n = nstates or rng.randint(2, 5)
     ids = [f"s{k}" for k in range(n)]
     nfinal = rng.randint(0, max(0, n - 2)) if finals else 0
@@ -53,6 +53,9 @@ def rand_def(rng, *, nstates=None, ntrans=None, provs=("sm",), dense=0.5, coro=0
                                          ["convention", "name", "callable", "method", "decorator"])
             else:
                 cb["style"] = "name" if okind == "T" else rng.choice(["convention", "name"])
+            if styles and group == "cond" and rng.random() < 0.25:
+                cb["style"] = "property"       # a guard given as a property of its provider
+                cb["coro"] = False
         if group in ("before", "on"):
             cb["ret"] = rng.choice(["none", f"r{len(cbs) + 1}", f"r{len(cbs) + 1}"])
         cbs.append(cb)
@@ -99,6 +102,18 @@ def rand_def(rng, *, nstates=None, ntrans=None, provs=("sm",), dense=0.5, coro=0
     for g in ("enter", "exit"):
         if rng.random() < dense * 0.5:
             add_conv("GS", g)
+    # events of the machine used as actions (on="<event>"): the event is sent to the machine itself.  Kept finite by a
+    # rank on events: the event sent ranks strictly above every event of the transition it sits on, so every causal
+    # chain of such sends ends, whatever the order in which queued events are processed.
+    if evcb_p:
+        for j, t in enumerate(trans, start=1):
+            if rng.random() < evcb_p:
+                top = max(evs.index(e) for e in t["evs"])
+                options = [e for e in evs[top + 1:] if any(e in u["evs"] for u in trans)]   # declared events only
+                if options:
+                    cbs.append({"okind": "T", "owner": "", "tix": j, "group": rng.choice(["before", "on", "after"]),
+                                "prov": "sm", "coro": False, "yields": 0, "gname": "none", "expected": True, "ret": "none",
+                                "style": "event", "evcb": rng.choice(options)})
     used = [e for e in evs if any(e in t["evs"] for t in trans)]
     return {"name": name, "states": states, "trans": trans, "initial": ids[0], "cbs": cbs,
             "evstyle": "param", "evlist": used}
@@ -118,8 +133,10 @@ def rand_engine_scenario(rng, *, nsends=None, provs=None, rtc=None, allow=None, 
     opt = {"rtc": (rng.random() < 0.7) if rtc is None else rtc,
            "allow": (rng.random() < 0.3) if allow is None else allow,
            "start": "", "budget": 0}
-    if has_coro:
+    if has_coro or any(cb.get("evcb") for cb in d["cbs"]):
         opt["rtc"] = True
+    if any(cb.get("evcb") for cb in d["cbs"]):
+        opt["allow"] = True      # the event sent by an event-action may find no transition in the state it is processed from
     budget = rng.randint(1, 4)
     opt["budget"] = budget
     evs = d["evlist"]
